@@ -28,6 +28,7 @@ class C01(Property):
     ID = "C01"
     SESSIONS = ["s0", "s1"]
     RUNS = {"quick": (6000, 6000), "thorough": (150000, 150000)}
+    MUST_REACH = {"probes": ["overwrite_shorter", "overwrite_longer", "recovery_after_fault", "stale_target", "in_place_edit", "nondefault_table_index"], "faults": ["crash", "enospc", "eio_write", "eio_read", "short_write", "short_read", "eintr", "open_fail", "toctou_created"]}
 
     def config(self, rng, tier, faulty):
         big = tier == "thorough"
